@@ -159,3 +159,41 @@ Verdict evaluate(const Sig &s) {
     return v;
 }
 }
+namespace ref {
+static bool kidsOf(const Tlv &t, std::vector<Tlv> &k) { if (t.nested) { k = t.kids; return true; } return decodeList(t.payload.data(), t.payload.size(), k); }
+static std::string cstr(const Tlv &t) { std::string s(t.payload.begin(), t.payload.end()); if (!s.empty() && s.back() == 0) s.pop_back(); return s; }
+bool decodeAggChain(const Tlv &t, AggChain &c, std::string &err) {
+    std::vector<Tlv> k; if (!kidsOf(t, k)) { err = "aggregation chain does not tile"; return false; }
+    for (auto &e : k) { switch (e.tag) {
+        case 0x02: c.aggrTime = e.asU64(); break; case 0x03: c.index.push_back(e.asU64()); break; case 0x04: c.hasInputData = true; c.inputData = e.payload; break; case 0x05: c.inputHash = e.payload; break; case 0x06: c.algId = e.asU64(); break;
+        case 0x07: case 0x08: { Link l; l.isLeft = e.tag == 0x07; std::vector<Tlv> lk; if (!kidsOf(e, lk)) { err = "link does not tile"; return false; }
+            for (auto &q : lk) { if (q.tag == 0x01) { l.corr = q.asU64(); l.corrPresent = true; } else if (q.tag == 0x02) { l.kind = SIB_IMPRINT; l.sib = q.payload; } else if (q.tag == 0x03) { l.kind = SIB_LEGACY; l.sib = q.payload; } else if (q.tag == 0x04) { l.kind = SIB_META; l.sib = q.payload; } }
+            c.links.push_back(l); break; }
+        default: break; } }
+    return true;
+}
+bool decodeCalChain(const Tlv &t, CalChain &c, std::string &err) {
+    std::vector<Tlv> k; if (!kidsOf(t, k)) { err = "calendar chain does not tile"; return false; } c.hasAggrTime = false;
+    for (auto &e : k) { if (e.tag == 0x01) c.pubTime = e.asU64(); else if (e.tag == 0x02) { c.hasAggrTime = true; c.aggrTime = e.asU64(); } else if (e.tag == 0x05) c.inputHash = e.payload; else if (e.tag == 0x07 || e.tag == 0x08) { CalLink l; l.isLeft = e.tag == 0x07; l.sib = e.payload; c.links.push_back(l); } }
+    return true;
+}
+static bool decodePubData(const Tlv &t, PubData &d) { std::vector<Tlv> k; if (!kidsOf(t, k)) return false; for (auto &e : k) { if (e.tag == 0x02) d.time = e.asU64(); else if (e.tag == 0x04) d.hash = e.payload; } return true; }
+bool decodeSig(const Bytes &enc, Sig &s, std::string &err) {
+    Tlv top; if (!decodeOne(enc, top) || top.tag != 0x800) { err = "not a signature element"; return false; } std::vector<Tlv> k; if (!kidsOf(top, k)) { err = "signature does not tile"; return false; }
+    s = Sig(); std::vector<AggChain> chains;
+    for (auto &e : k) { switch (e.tag) {
+        case 0x801: { AggChain c; if (!decodeAggChain(e, c, err)) return false; chains.push_back(c); break; }
+        case 0x802: { s.hasCal = true; if (!decodeCalChain(e, s.cal, err)) return false; break; }
+        case 0x803: { s.hasPub = true; std::vector<Tlv> pk; if (!kidsOf(e, pk)) { err = "publication record does not tile"; return false; } for (auto &q : pk) { if (q.tag == 0x10) decodePubData(q, s.pub.data); else if (q.tag == 0x09) s.pub.refs.push_back(cstr(q)); else if (q.tag == 0x0a) s.pub.uris.push_back(cstr(q)); } break; }
+        case 0x805: { s.hasAuth = true; std::vector<Tlv> pk; if (!kidsOf(e, pk)) { err = "authentication record does not tile"; return false; }
+            for (auto &q : pk) { if (q.tag == 0x10) decodePubData(q, s.auth.data); else if (q.tag == 0x0b) { std::vector<Tlv> sk; if (kidsOf(q, sk)) for (auto &z : sk) { if (z.tag == 0x01) s.auth.sigType = cstr(z); else if (z.tag == 0x02) s.auth.sigValue = z.payload; else if (z.tag == 0x03) s.auth.certId = z.payload; else if (z.tag == 0x04) s.auth.certUri = cstr(z); } } } break; }
+        case 0x806: { s.hasRfc = true; std::vector<Tlv> pk; if (!kidsOf(e, pk)) { err = "rfc3161 record does not tile"; return false; }
+            for (auto &q : pk) { switch (q.tag) { case 0x02: s.rfc.aggrTime = q.asU64(); break; case 0x03: s.rfc.index.push_back(q.asU64()); break; case 0x05: s.rfc.inputHash = q.payload; break; case 0x10: s.rfc.tstPre = q.payload; break; case 0x11: s.rfc.tstSuf = q.payload; break;
+                case 0x12: s.rfc.tstAlg = q.asU64(); break; case 0x13: s.rfc.sigPre = q.payload; break; case 0x14: s.rfc.sigSuf = q.payload; break; case 0x15: s.rfc.sigAlg = q.asU64(); break; default: break; } } break; }
+        default: break; } }
+    if (chains.empty()) { err = "no aggregation chain"; return false; }
+    // order: decreasing index length (stable)
+    for (size_t i = 1; i < chains.size(); i++) for (size_t j = i; j > 0 && chains[j - 1].index.size() < chains[j].index.size(); j--) std::swap(chains[j - 1], chains[j]);
+    s.chains = chains; return true;
+}
+}
